@@ -382,9 +382,13 @@ class Parser:
             case ast.USub():
                 arg = self._parse_expr(e.operand)
                 if isinstance(arg, RationalVal) and arg.as_rational() == 0:
-                    # Negating a zero literal yields negative zero, a signed
-                    # literal — fold it here so the sign survives regardless of
-                    # context (a `Neg` under REAL loses it). See `as_real`.
+                    # Negating a zero literal yields a zero of the opposite
+                    # sign, a signed literal — fold it here so the sign survives
+                    # regardless of context (a `Neg` under REAL loses it).
+                    # See `as_real`.
+                    if isinstance(arg.as_real(), Float):
+                        # the operand is the negative zero: `-(-0.0)` is `+0`
+                        return Integer(0, loc)
                     return Decnum('-0.0', loc)
                 elif isinstance(arg, Integer):
                     return Integer(-arg.val, loc)
